@@ -7,7 +7,8 @@ use crate::engine::*;
 use crate::guard::guarded;
 use crate::json::J;
 use crate::prng::{fnv1a, Rng, FNV_INIT};
-use crate::realise::{plan_canonical, realise_probed, Concrete};
+use crate::realise::{plan_canonical, plan_with, realise_probed, Concrete, Plan};
+use crate::tape::Tape;
 use crate::spec::*;
 use rtcp_types::RtcpWriteError;
 
@@ -115,8 +116,23 @@ fn judge_cap(c: &Concrete<'_>, whole: bool, size: &Option<WRes>, n_ref: &mut Opt
     (r, v)
 }
 
-fn case_json(spec: &Spec, cap: usize, hash_key: u64, probes: u64) -> J {
-    J::obj().set("spec", spec.to_json()).set("cap", cap).set("hash_key", hash_key).set("probes", probes)
+fn case_json(spec: &Spec, cap: usize, hash_key: u64, probes: u64, tape: &[u32]) -> J {
+    J::obj().set("spec", spec.to_json()).set("cap", cap).set("hash_key", hash_key).set("probes", probes).set("tape", tape.to_vec())
+}
+
+/// The call history that builds the configuration: canonical for an empty tape, otherwise the
+/// tape-driven one (setter order, stale calls, owned / borrowed forms) — every way of reaching a
+/// configuration is a builder configuration in the sense of the statement.
+pub fn plan_for(spec: &Spec, tape: &[u32]) -> Plan {
+    if tape.is_empty() {
+        plan_canonical(spec)
+    } else {
+        plan_with(spec, &mut Tape::replaying(tape.to_vec()))
+    }
+}
+
+pub fn case_tape(case: &J) -> Vec<u32> {
+    case.arr_of("tape").map(|a| a.iter().filter_map(|v| v.as_u64().map(|x| x as u32)).collect()).unwrap_or_default()
 }
 
 fn res_code(r: &WRes) -> u64 {
@@ -151,7 +167,10 @@ impl Check for C06 {
         let hash_key = Rng::derive(seed, "hash").next_u64();
         let gcfg = GenCfg::draw(&mut wl);
         let spec = gen_spec(&mut wl, &gcfg, 0);
-        let plan = plan_canonical(&spec);
+        // a quarter of the configurations are reached through a seeded call history instead of the
+        // canonical one
+        let tape: Vec<u32> = if ar.chance(1, 4) { (0..96).map(|_| ar.u32()).collect() } else { Vec::new() };
+        let plan = plan_for(&spec, &tape);
         let whole = spec.is_whole_packet();
         let kind = spec.kind_name();
         let kh = fnv1a(FNV_INIT, kind.as_bytes());
@@ -224,7 +243,7 @@ impl Check for C06 {
             ctx.stats.sample(skind, idx, || J::obj().set("spec", spec.to_json()).set("capacities", "0..=n+8").set("hash_key", hash_key).set("probes", probes));
         }
         if let Some((cap, what, detail)) = found {
-            out.push(Violation { class: format!("{what}@{kind}"), detail, episode: idx, case: case_json(&spec, cap, hash_key, probes), provenance: J::obj().set("swarm", gcfg.to_json()) });
+            out.push(Violation { class: format!("{what}@{kind}"), detail, episode: idx, case: case_json(&spec, cap, hash_key, probes, &tape), provenance: J::obj().set("swarm", gcfg.to_json()) });
         }
     }
 
@@ -233,7 +252,7 @@ impl Check for C06 {
         let cap = case.usize_of("cap")?;
         let hash_key = case.u64_of("hash_key")?;
         let probes = case.u64_of("probes").unwrap_or(0);
-        let plan = plan_canonical(&spec);
+        let plan = plan_for(&spec, &case_tape(case));
         let whole = spec.is_whole_packet();
         let kind = spec.kind_name();
         let mut lg = Vec::new();
@@ -262,28 +281,37 @@ impl Check for C06 {
     fn shrink(&self, case: &J) -> Vec<J> {
         let (Ok(specj), Ok(cap), Ok(key)) = (case.obj_of("spec"), case.usize_of("cap"), case.u64_of("hash_key")) else { return vec![] };
         let probes = case.u64_of("probes").unwrap_or(0);
+        let tape = case_tape(case);
         let Ok(spec) = Spec::from_json(specj) else { return vec![] };
         let mut out = Vec::new();
         for s in spec.shrinks() {
-            out.push(case_json(&s, cap, key, probes));
+            out.push(case_json(&s, cap, key, probes, &tape));
             // the interesting capacity moves with the size
             for c in [0usize, 4, 8, 12, 16, 20, 24, 28, 32] {
                 if c != cap {
-                    out.push(case_json(&s, c, key, probes));
+                    out.push(case_json(&s, c, key, probes, &tape));
                 }
             }
         }
         for c in [0usize, cap / 2, cap.saturating_sub(4), cap.saturating_sub(1)] {
             if c != cap {
-                out.push(case_json(&spec, c, key, probes));
+                out.push(case_json(&spec, c, key, probes, &tape));
+            }
+        }
+        if !tape.is_empty() {
+            out.push(case_json(&spec, cap, key, probes, &[]));
+            for t in crate::shrinkb::shrink_tape(&tape).into_iter().take(12) {
+                if !t.is_empty() {
+                    out.push(case_json(&spec, cap, key, probes, &t));
+                }
             }
         }
         if probes != 0 {
-            out.push(case_json(&spec, cap, key, 0));
-            out.push(case_json(&spec, cap, key, u64::MAX));
+            out.push(case_json(&spec, cap, key, 0, &tape));
+            out.push(case_json(&spec, cap, key, u64::MAX, &tape));
         }
         if key != 0 {
-            out.push(case_json(&spec, cap, 0, probes));
+            out.push(case_json(&spec, cap, 0, probes, &tape));
         }
         out
     }
